@@ -51,3 +51,46 @@ for _mod, _cls in (('bridgepoint.oal', 'OALParser'), ('xtuml.load', 'ModelLoader
         M.contract('%s.%s.%s' % (_mod, _cls, _name), [('self', RefT(_cls)), ('t', TOK)], returns=TOK,
                    requires={'token': 't is not None and t.lexer is not None'}, ensures=_ens,
                    modifies=['t.endlexpos', 't.endlineno', 't.type', 't.lexer.lineno'])
+
+# ---- positions of syntax-tree nodes: taken from PLY's bookkeeping of the production (A-PLY spans), columns by find_column
+NODE, POS, PROD, LEXER = RefT('Node'), RefT('Position'), RefT('YaccProduction'), RefT('Lexer')
+M.fields({'Node.position': POS, 'Node.character_stream': STR, 'Position.label': VAL, 'Position.start_stream': INT, 'Position.start_line': INT,
+          'Position.start_column': INT, 'Position.end_stream': INT, 'Position.end_line': INT, 'Position.end_column': INT,
+          'YaccProduction.lexer': LEXER, 'YaccProduction.n': INT, 'Lexer.label': VAL, 'Lexer.lexdata': STR})
+M.klass('YaccProduction', len='self.n')
+M.klass('Position', bases=[])
+M.uninterpreted('p_lexpos', [PROD, INT], INT)
+M.uninterpreted('p_lineno', [PROD, INT], INT)
+M.uninterpreted('p_lexspan_end', [PROD, INT], INT)
+M.uninterpreted('p_linespan_end', [PROD, INT], INT)
+PLY = 'A-PLY: the production object reports the positions PLY tracked for its symbols (parser run with tracking=1)'
+M.contract('ply.yacc.YaccProduction.lexpos', [('self', PROD), ('n', INT)], returns=INT, trusted=True, reason=PLY,
+           ensures={'value': 'result == p_lexpos(self, n)'}, modifies=[])
+M.contract('ply.yacc.YaccProduction.lineno', [('self', PROD), ('n', INT)], returns=INT, trusted=True, reason=PLY,
+           ensures={'value': 'result == p_lineno(self, n)'}, modifies=[])
+M.contract('ply.yacc.YaccProduction.lexspan', [('self', PROD), ('n', INT)], returns=TupT(INT, INT), trusted=True, reason=PLY,
+           ensures={'value': 'result[1] == p_lexspan_end(self, n)'}, modifies=[])
+M.contract('ply.yacc.YaccProduction.linespan', [('self', PROD), ('n', INT)], returns=TupT(INT, INT), trusted=True, reason=PLY,
+           ensures={'value': 'result[1] == p_linespan_end(self, n)'}, modifies=[])
+M.contract('bridgepoint.oal.Position.__init__', [('self', POS)], returns=NONE, trusted=True, reason='plain field initialisation (all four to 0)',
+           ensures={'zeroed': 'self.start_line == 0 and self.start_column == 0 and self.end_line == 0 and self.end_column == 0'},
+           modifies=['self.start_line', 'self.start_column', 'self.end_line', 'self.end_column'])
+M.spec('''
+def is_column(text, pos, c):
+    return (implies(all(text[i] != '\\n' for i in range(0, pos)), c == pos + 1)
+            and all(implies(0 <= k and k < pos and text[k] == '\\n' and all(text[i] != '\\n' for i in range(k + 1, pos)), c == pos - k) for k in ints()))
+''', sorts={'is_column': ([STR, INT, INT], BOOL, [])})
+M.contracts['bridgepoint.oal.find_column'].ensures['is-the-column'] = 'is_column(lexdata, lexpos, result)'
+M.contract('bridgepoint.oal.set_positional_info', [('node', NODE), ('p', PROD)], returns=NONE,
+           requires={'a-production-with-symbols': 'node is not None and p is not None and p.lexer is not None and p.n > 1',
+                     'spans-inside-the-text': '0 <= p_lexpos(p, 1) and p_lexpos(p, 1) <= len(p.lexer.lexdata) and 0 <= p_lexspan_end(p, p.n - 1) '
+                                              'and p_lexspan_end(p, p.n - 1) <= len(p.lexer.lexdata)'},
+           ensures={'starts-where-its-first-symbol-starts':
+                    'node.position is not None and fresh(node.position) and node.position.start_stream == p_lexpos(p, 1) and node.position.start_line == p_lineno(p, 1) '
+                    'and is_column(p.lexer.lexdata, p_lexpos(p, 1), node.position.start_column)',
+                    'ends-where-its-last-symbol-ends': 'node.position.end_stream == p_lexspan_end(p, p.n - 1)',
+                    'ends-on-the-line-its-last-symbol-ends-on': 'node.position.end_line == p_linespan_end(p, p.n - 1)',
+                    'end-column-is-the-column-of-its-last-character': 'is_column(p.lexer.lexdata, p_lexspan_end(p, p.n - 1), node.position.end_column + 1)',
+                    'carries-its-source-text': 'node.character_stream == p.lexer.lexdata[node.position.start_stream:node.position.end_stream]',
+                    'labelled-as-the-lexer': 'same(node.position.label, p.lexer.label)'},
+           modifies=['node.position', 'node.character_stream'])
